@@ -86,9 +86,6 @@ fn canon_pval(v: &PropertyValue) -> String {
 fn observe(store: &TensorStore, blob_hashes: &[ChunkHash]) -> Obs {
     let mut o = Obs::default();
     for k in store.scan("") {
-        if k.starts_with("_cache:") {
-            continue;
-        }
         match store.get(&k) {
             Ok(mut d) => {
                 if k.starts_with("emb:") {
@@ -194,6 +191,22 @@ fn build_content(rng: &mut Rng, size: usize, exact_only: bool) -> Content {
             }
         }
         let _ = store.put(k, d);
+    }
+    // a few cache-ring entries (part of every snapshot image)
+    for i in 0..(size / 8).min(6) {
+        wid += 1;
+        let k = format!("_cache:q{}", i);
+        let d = gen_data(rng, &k, wid, true);
+        let _ = store.put(k, d);
+    }
+    // sometimes blob-like incompressible payloads, enough to make the whole image incompressible
+    if size >= 3 && rng.chance(1, 5) {
+        for i in 0..(2 + rng.below(3)) {
+            let mut d = TensorData::new();
+            let n = 30_000 + rng.below(90_000);
+            d.set("_data", TensorValue::Scalar(ScalarValue::Bytes(rng.bytes(n))));
+            let _ = store.put(format!("_blob:chunk:sha256:{:016x}{}", rng.next_u64(), i), d);
+        }
     }
     // relational tables
     let rel = RelationalEngine::with_store(store.clone());
@@ -494,6 +507,13 @@ fn roundtrip_case(case_seed: u64, r: &mut Report, args: &Args, big: bool) {
             let dirty = build_content(&mut rng, 12, true).store;
             let got = dirty.restore_from_bytes(&bytes).map_err(|e| format!("restore: {}", e)).map(|_| observe(&dirty, &c.blob_hashes));
             report_bytes(&mut report, "bytes-dirty", got, r, &orig_blobs);
+            // a live store that was created with a Bloom filter (point lookups consult the filter)
+            let bloom = TensorStore::with_bloom_filter(4_096, 0.01);
+            let mut seed_d = TensorData::new();
+            seed_d.set("x", TensorValue::Scalar(ScalarValue::Int(1)));
+            let _ = bloom.put("k:previous", seed_d);
+            let got = bloom.restore_from_bytes(&bytes).map_err(|e| format!("restore: {}", e)).map(|_| observe(&bloom, &c.blob_hashes));
+            report_bytes(&mut report, "bytes-bloom-store", got, r, &orig_blobs);
             // 4. SlabRouter bytes
             let got = SlabRouter::from_bytes(&bytes).map_err(|e| format!("from_bytes: {}", e)).map(|router| {
                 // observe through a file round trip of the restored router is not needed: wrap by saving
@@ -850,11 +870,11 @@ fn main() {
     }
     let meta = Meta {
         property: "C07",
-        rule: "roundtrip case = store of 0..200 (a few of 3 000 / 30 000) raw entries over all value kinds and key classes + relational tables (Int/Float/String/Bool/Bytes, nullable, optional index) + graph nodes/edges with properties + vector-engine embeddings (dims 2-255 and 384) + blob-log chunks, saved and reloaded through 8 paths (file, v3 uncompressed, v3 default/zstd, bytes->fresh store, bytes->dirty store, SlabRouter bytes, quantising format default and balanced) and observed through store scan/get AND RelationalEngine/GraphEngine/VectorEngine reads; temp-prefix case = destination A + every (small) or sampled prefix of B's bytes as the sibling temp file, then the renamed file, plus a real save over a longer leftover temp file; resnapshot case = image, 1-3 changes of random kind (relational rows through the slab, new table, clear(), graph node, raw put, delete rows), image again after each change, restored and compared with the live store. Distinct = hash of key set x seed; non-trivial = at least 3 keys (round trip) / A and B differ (crash).",
+        rule: "roundtrip case = store of 0..200 (a few of 3 000 / 30 000) raw entries over all value kinds and key classes + relational tables (Int/Float/String/Bool/Bytes, nullable, optional index) + graph nodes/edges with properties + vector-engine embeddings (dims 2-255 and 384) + blob-log chunks, saved and reloaded through 9 paths (file, v3 uncompressed, v3 default/zstd, bytes->fresh store, bytes->dirty store, bytes->store with a Bloom filter, SlabRouter bytes, quantising format default and balanced) and observed through store scan/get AND RelationalEngine/GraphEngine/VectorEngine reads; temp-prefix case = destination A + every (small) or sampled prefix of B's bytes as the sibling temp file, then the renamed file, plus a real save over a longer leftover temp file; resnapshot case = image, 1-3 changes of random kind (relational rows through the slab, new table, clear(), graph node, raw put, delete rows), image again after each change, restored and compared with the live store. Distinct = hash of key set x seed; non-trivial = at least 3 keys (round trip) / A and B differ (crash).",
         assumptions: vec![
             "384-dim slab vectors with >= 55% zeros are expected bit-exact (the slab snapshot's sparse path); dense low-TT-rank 384-dim vectors are held to the documented <1% relative L2 error; dense random 384-dim vectors are not judged (no bound is documented when the rank cap binds)".into(),
             "quantising format: vector payloads are not judged beyond presence; everything else must be exact".into(),
-            "cache keys and, for restore_from_bytes, blob-log chunks are outside the comparison".into(),
+            "for restore_from_bytes, blob-log chunks (router().blobs) are outside the comparison".into(),
         ],
         floors: if args.replay.is_some() { vec![] } else { vec![("evaluations", 60), ("keys_compared", 2_000), ("table_rows_compared", 500), ("graph_entities_compared", 500), ("exact_slab_vectors_compared", 100), ("temp_prefix_images", 500), ("max:store_entries", 2_000), ("resnapshots_compared", 200), ("saves_over_stale_temp_file", 20)] },
         exhaustive: false,
